@@ -1,6 +1,8 @@
 package props
 
 import (
+	"time"
+	"context"
 	"fmt"
 	"math/big"
 	"net/http"
@@ -44,7 +46,9 @@ func grpcValues() []string {
 		nums = append(nums, strconv.Itoa(p-1), strconv.Itoa(p), strconv.Itoa(p+1))
 		p *= 10
 	}
-	nums = append(nums, "99999999", "007", "00000000", "00000001", "01000", "3599", "3600", "3601", "86399999", "59999", "60000", "60001")
+	nums = append(nums, "99999999", "007", "00000000", "00000001", "01000", "3599", "3600", "3601", "86399999", "59999", "60000", "60001",
+		// values whose decimal-seconds form is not exactly representable in binary floating point
+		"99070805", "4350000", "1150", "1001", "2003", "33330", "1255", "8700001", "70000001", "29000003")
 	for _, n := range nums {
 		if len(n) > 8 {
 			continue
@@ -77,12 +81,18 @@ func restValues() []string {
 	for i := 1; i <= 40; i++ {
 		out = append(out, fmt.Sprintf("0.%03d", i*7), fmt.Sprintf("%d.%d", i, i))
 	}
+	// decimal fractions that binary floating point cannot represent: multiplying and truncating
+	// must not lose a whole unit of the target encoding
+	out = append(out, "1.001", "2.003", "1.0009", "99.070805", "4.35", "1.15", "8.7", "0.29", "1.005", "33.33", "0.57", "1.255", "1.000001", "0.000007", "16.001", "1.009", "64.000001", "0.017", "1.017")
+	for i := 1; i <= 60; i++ {
+		out = append(out, fmt.Sprintf("%d.%03d", i, (i*37)%1000), fmt.Sprintf("%d.%06d", i%7, (i*100003)%1000000))
+	}
 	return out
 }
 
 var c12Malformed = map[string][]string{
-	"Grpc-Timeout":       {"5", "5x", "S", "123456789S", "+1S", "-1S", " 1S", "1 S", "1S ", "1.5S", "0x1S", "1s", "1h", "١S", "1SS", "1e2S"},
-	"Connect-Timeout-Ms": {"-5", "x", "1.5", "+5", " 5", "5 ", "0x10", "1e3", "5ms", "١"},
+	"Grpc-Timeout":       {"5", "5x", "S", "123456789S", "000000001S", "000000000n", "0000000001H", "+1S", "-1S", " 1S", "1 S", "1S ", "1.5S", "0x1S", "1s", "1h", "١S", "1SS", "1e2S"},
+	"Connect-Timeout-Ms": {"-5", "x", "1.5", "+5", " 5", "5 ", "0x10", "1e3", "5ms", "١", "00000000001", "12345678901"},
 	"X-Server-Timeout": {"abc", "-5", "-0.5", "NaN", "Inf", "+Inf", "-Inf", "0x10", "1s", " 1", "1 ", "1,5", "1_000", "0x1p-2", "--1", "١",
 		// negative or hexadecimal AND beyond float64: the range error must not pre-empt the sign / syntax check
 		"-1e400", "-1E+999", "-9e99999", "-1e309", "0x1p99999", "-0x1p99999", "-Infinity", "-inf", "nan", "infinity", "-1e300", "-1.5e2"},
@@ -142,10 +152,20 @@ func init() {
 		if cl.form == wire.REST {
 			p.RESTMethod, p.RESTTarget = "GET", "/v1/pure/x?num=1"
 		}
+		// the server's own request context may carry a deadline (http.TimeoutHandler, a
+		// context.WithTimeout middleware): that is not the client's timeout
+		var cancel context.CancelFunc
+		sctx := context.Background()
+		if d := c.Free("server-context-deadline", 3); d > 0 {
+			sctx, cancel = context.WithTimeout(sctx, []time.Duration{time.Hour, 10 * time.Second}[d-1])
+			defer cancel()
+			c.Attr("~server-context-deadline", []string{"1h", "10s"}[d-1])
+		}
 		r := p.run(runOpts{Spec: func(s *drive.ReqSpec) {
 			if present {
 				s.Header[cl.header] = []string{value}
 			}
+			s.Ctx = sctx
 		}})
 		if r.Err != nil {
 			c.Fail("harness.setup", "%v", r.Err)
